@@ -233,6 +233,10 @@ def children_are_direct(ctx):
 
 
 def run(ctx):
+    from .C12 import one_name_per_destination
+    one_name_per_destination(ctx)
+    from .C15 import cached_slot_types_agree
+    cached_slot_types_agree(ctx)
     from .C15 import refresh_keeps_nothing
     refresh_keeps_nothing(ctx)          # the cached inode id is re-read every tick: the (path, id) re-resolution of a deferred victim relies on it
     borrowed_fd_not_consumed(ctx)
@@ -527,7 +531,7 @@ def run(ctx):
             if nm in ("clear", "begin", "end", "empty", "size", "operator[]", "at", "cbegin", "cend", "front", "back", "data", "reserve"):
                 continue
             t = Xs_(n["args"][0]) if n.get("args") else ""
-            good = nm == "emplace_back" and (t.startswith("{elem(*std::make_shared(this->rankForKilling(") or
+            good = nm in ("emplace_back", "push_back") and (t.startswith("{elem(*std::make_shared(this->rankForKilling(") or
                                              re.match(r"^\*deserializeKillCandidate\(elem\(", t))
             ctx.check(bool(good), "stack-fill:" + short(f), "provenance", f.loc(i),
                       "option stack receives only ranked/re-resolved candidates",
@@ -541,7 +545,7 @@ def run(ctx):
         if nm in ("pop_back", "back", "begin", "end", "empty", "size", "operator[]", "at", "cbegin", "cend", "rbegin", "rend", "front", "data"):
             continue        # reads / removal of the top
         t = Xr_(n["args"][0]) if n.get("args") else ""
-        ctx.check(nm == "emplace_back" and t.startswith("{elem(*std::make_shared(this->rankForKilling(param:ctx, param:ctx.addChildrenToCacheAndGet("),
+        ctx.check(nm in ("emplace_back", "push_back") and t.startswith("{elem(*std::make_shared(this->rankForKilling(param:ctx, param:ctx.addChildrenToCacheAndGet("),
                   "stack-fill:resumeTryingToKillSomething", "provenance", rts.loc(i),
                   "only ranked children of the popped candidate are pushed", "option stack mutated by %s(%s)" % (nm, t[:100]))
     krun = ctx.fn1("Oomd::BaseKillPlugin::run")
